@@ -378,6 +378,7 @@ class Engine(Interp):
             if isinstance(v, ListObj):
                 r = self.list_copy(v)     # order is abstracted
                 r.isset = False
+                r._seq = None             # a sorted copy has its own positions
                 if v.isset or getattr(v, 'hash_ordered', False):
                     # sorted(<set>): deterministic only if the key is injective on the elements
                     keynode = None
@@ -1039,6 +1040,8 @@ class Engine(Interp):
             et = getattr(spec, 'elem_types', {}).get(ms)
             if et and isinstance(loc, ListObj):
                 loc.elem = et
+            if ms in getattr(spec, 'positions', ()) and isinstance(loc, ListObj):
+                loc.track_pos = True
             if et and isinstance(loc, DictObj) and et.endswith('->num') and loc.vkind != 'num':
                 loc.vkind = 'num'
                 loc.vals = z3.Const(fresh_name(f"{name}.{ms}.vals"), z3.ArraySort(I, R))
@@ -1069,6 +1072,11 @@ class Engine(Interp):
             else:
                 e = z3.Int(fresh_name('elem'))
                 self.st.assume(z3.Select(vis.cnt, e) < z3.Select(it.cnt, e))
+                if getattr(spec, 'ordered', False):
+                    # a Python for-loop visits a list in position order: the visited part is the prefix, this item is the next one
+                    AT = z3.Function('at', I, I, I)
+                    self.seq_facts(it)
+                    self.st.assume(e == AT(it.seq, vis.n))
                 if idx_name:
                     self.st.locals[idx_name] = Sym('num', z3.ToReal(vis.n), isint=True)
                 ev_ = self.elem_value(it, e)
